@@ -177,6 +177,38 @@ var (
 	curOpt   string
 )
 
+// The shape of the address list handed to NewSyncer / SyncAdChain ("" = just the address).
+// nil entries are what mautil.CleanPeerAddrInfo exists to remove.
+var (
+	curAddrShape string
+	addrShapes   = []string{"nil-first", "nil-last", "nil-middle", "nil-twice", "duplicate", "dead-first", "only-nil"}
+	deadAddr     multiaddr.Multiaddr
+)
+
+// shapeAddrs applies the current shape to an address list; usable=false when it leaves no
+// address a sync could use
+func shapeAddrs(addrs []multiaddr.Multiaddr) (out []multiaddr.Multiaddr, usable bool) {
+	switch curAddrShape {
+	case "":
+		return addrs, true
+	case "nil-first":
+		return append([]multiaddr.Multiaddr{nil}, addrs...), true
+	case "nil-last":
+		return append(append([]multiaddr.Multiaddr{}, addrs...), nil), true
+	case "nil-middle":
+		return append(append(append([]multiaddr.Multiaddr{}, addrs...), nil), addrs...), true
+	case "nil-twice":
+		return append([]multiaddr.Multiaddr{nil, nil}, addrs...), true
+	case "duplicate":
+		return append(append([]multiaddr.Multiaddr{}, addrs...), addrs...), true
+	case "dead-first":
+		return append([]multiaddr.Multiaddr{deadAddr}, addrs...), true
+	case "only-nil":
+		return []multiaddr.Multiaddr{nil}, false
+	}
+	panic("unknown address shape " + curAddrShape)
+}
+
 func syncFor(opt string) *ipnisync.Sync {
 	if opt == "" {
 		return sharedSync
@@ -205,7 +237,8 @@ func runGetHead(s *server, expected peer.ID) (r callResult) {
 			r = callResult{kind: "panic", err: fmt.Sprint(x)}
 		}
 	}()
-	syncer, err := syncFor(curOpt).NewSyncer(peer.AddrInfo{ID: expected, Addrs: []multiaddr.Multiaddr{s.maddr}})
+	addrs, _ := shapeAddrs([]multiaddr.Multiaddr{s.maddr})
+	syncer, err := syncFor(curOpt).NewSyncer(peer.AddrInfo{ID: expected, Addrs: addrs})
 	if err != nil {
 		return callResult{kind: "err", err: "NewSyncer: " + err.Error()}
 	}
